@@ -516,6 +516,15 @@ func (s *Sched) reschedule(from *G, exiting bool) {
 		if s.clock > s.opt.Horizon {
 			s.end(EndHorizon)
 		}
+		// timers that are already due (their instant has been reached) fire
+		// at once: simultaneity, not a scheduling choice
+		for {
+			t := s.nextTimer()
+			if t == nil || t.at > s.clock {
+				break
+			}
+			s.fireTimer()
+		}
 		// enabled goroutines in canonical order: current first, then ascending id
 		var alts []*G
 		curEnabled := false
